@@ -20,7 +20,10 @@
   and values at every depth); the walk the drivers print is the abstraction.
   `abs_ops_statement` restates add/insert/clone/move through the spec state `Forest.St` (which also searches the
   operands in `tops`); proved are the decomposed forms, the operand search of `St` itself is exercised by the
-  correspondence run only.  Not modelled: gnode_relink / gnode_swap (not in the property's file list).
+  correspondence run only.  gnode_swap.c (children of two nodes exchanged) and gnode_relink.c (parent/predecessor
+  links below a node restored from the child/successor links) are modelled (`Store.swap`, `Store.relink`) and
+  compared with the specification (`St.swap`, `St.relink`) by the correspondence run, incl. relink on wiped links;
+  no theorem about them.
 -/
 import MptModel.Lemmas.NodesMove
 namespace Mpt.C14
